@@ -20,3 +20,8 @@ pub use pool::TxPool;
 pub use process::PlugTarget;
 pub use service::{TxPoolController, TxPoolServiceBuilder};
 pub use tokio::sync::RwLock as TokioRwLock;
+
+/// verification hook (off unless built with `--cfg ckb_verif`): public wrappers around the crate-private
+/// orphan-transaction pool and verify queue for external conformance harnesses
+#[cfg(ckb_verif)]
+pub mod verif;
